@@ -143,6 +143,8 @@ TWFail(t) ==
     /\ UNCHANGED <<mgr, str, net, rbuf, tp, rpc, nrpc, sctx, connmu, wire, wmark, hmeta, nst, stims>>
 
 (* --------------------------- reader goroutine ------------------------------ *)
+\* drpcdebug.Point("manager.reader.dispatch") sits at the label the dispatch (re)starts from
+RdDispatch == IF "manager.reader.dispatch" \in ArmedPoints THEN "pt.rddisp" ELSE "rd.dispatch"
 RdStep(e) ==
   LET t == Rd(e) th == thr[t] m == mgr[e] IN
   /\ ~InCall(th)
@@ -155,7 +157,7 @@ RdStep(e) ==
                LET f == Head(rbuf[e])
                    part == IF th.part # <<>> /\ (th.part[1].sid # f.sid \/ th.part[1].mid # f.mid) THEN <<f>> ELSE Append(th.part, f)
                IN /\ rbuf' = [rbuf EXCEPT ![e] = Tail(rbuf[e])]
-                  /\ IF f.done THEN SetT(t, [th EXCEPT !.opc = "rd.dispatch", !.part = <<>>,
+                  /\ IF f.done THEN SetT(t, [th EXCEPT !.opc = RdDispatch, !.part = <<>>,
                                                         !.pkt = [full |-> TRUE, sid |-> f.sid, mid |-> f.mid, kind |-> f.kind, tag |-> f.tag,
                                                                  ctl |-> \E i \in 1..Len(part) : part[i].ctl]])
                      ELSE SetT(t, [th EXCEPT !.part = part])
@@ -200,7 +202,7 @@ RdStep(e) ==
        [] th.opc = "rd.wait" ->      \* sbuf.Wait(curr.ID())
             /\ (m.sbufClosed \/ m.sbuf # th.waitid)
             /\ IF m.sbufClosed THEN SetT(t, [th EXCEPT !.opc = "done"]) /\ mgr' = [mgr EXCEPT ![e].rdDone = TRUE]
-               ELSE SetT(t, [th EXCEPT !.opc = "rd.dispatch"]) /\ UNCHANGED mgr
+               ELSE SetT(t, [th EXCEPT !.opc = RdDispatch]) /\ UNCHANGED mgr      \* goto again
             /\ UNCHANGED <<str, rbuf, tp, net>>
        [] OTHER -> FALSE
   /\ UNCHANGED <<wr, rpc, nrpc, sctx, connmu, wire, wmark, hmeta, nst, stims>>
@@ -260,7 +262,7 @@ NcsStep(t) ==
             /\ IF m.term # U THEN SetT(t, [th EXCEPT !.opc = th.cont.fail, !.res = m.term]) /\ UNCHANGED mgr
                ELSE IF cx # "live" THEN SetT(t, [th EXCEPT !.opc = th.cont.fail, !.res = CtxErr(cx)]) /\ UNCHANGED mgr
                ELSE /\ m.sem = 0 /\ mgr' = [mgr EXCEPT ![e].sem = 1]
-                    /\ SetT(t, [th EXCEPT !.opc = "ncs.prev"])
+                    /\ SetT(t, [th EXCEPT !.opc = IF "manager.acquire.got" \in ArmedPoints THEN "pt.acqgot" ELSE "ncs.prev"])
        [] th.opc = "ncs.prev" ->     \* waitForPreviousStream
             /\ UNCHANGED <<str, wr, hmeta>>
             /\ IF m.sbuf = 0 \/ FinS(e, m.sbuf) THEN SetT(t, [th EXCEPT !.opc = th.cont.ok]) /\ UNCHANGED mgr
@@ -504,12 +506,15 @@ Fault(e) ==
     /\ Mark /\ Hist([k |-> "fault", e |-> e])
     /\ UNCHANGED <<mgr, str, wr, thr, net, rbuf, rpc, nrpc, sctx, connmu, wire, hmeta>>
 
+PointLabels == {"pt.created", "pt.beforeset", "pt.metaw", "pt.msctx", "pt.rddisp", "pt.acqgot"}
 RelPoint(t) ==
     /\ Bound /\ "point" \in StimKinds
-    /\ thr[t].opc \in {"pt.created", "pt.beforeset", "pt.metaw", "pt.msctx"}
+    /\ thr[t].opc \in PointLabels
     /\ SetT(t, [thr[t] EXCEPT !.opc = CASE thr[t].opc = "pt.created" -> "inv.created"
                                           [] thr[t].opc = "pt.beforeset" -> "ncs.set"
                                           [] thr[t].opc = "pt.msctx" -> "ms.ctx"
+                                          [] thr[t].opc = "pt.rddisp" -> "rd.dispatch"
+                                          [] thr[t].opc = "pt.acqgot" -> "ncs.prev"
                                           [] thr[t].opc = "pt.metaw" -> (IF thr[t].op = "Invoke" THEN "inv.w1" ELSE "ns.w1")])
     /\ Mark /\ Hist([k |-> "point", t |-> t])
     /\ UNCHANGED <<mgr, str, wr, net, rbuf, tp, rpc, nrpc, sctx, connmu, wire, hmeta>>
@@ -538,7 +543,7 @@ Controllable ==
     \/ \E r \in Sids : CancelCtx(r)
     \/ CancelSrv
     \/ \E e \in Eps : Fault(e)
-    \/ \E t \in AppThreads \cup {Ms(e) : e \in Eps} : RelPoint(t)
+    \/ \E t \in AllThreads : RelPoint(t)
     \/ \E t \in AppThreads : RelU(t)
     \/ \E t \in AppThreads : RelM(t)
 
@@ -567,13 +572,13 @@ AppObs(t) == LET th == thr[t] IN
       [] th.in.pc = "tw" -> "tw"
       [] th.in.pc = "um" -> "um"
       [] th.in.pc = "ma" -> "ma"
-      [] th.opc \in {"pt.created", "pt.beforeset", "pt.metaw"} -> "pt"
+      [] th.opc \in PointLabels -> "pt"
       [] th.opc = "h.wait" -> "h:" \o th.res
       [] OTHER -> "blk"
 LibObs(t) == LET th == thr[t] IN
     CASE th.opc = "done" -> "done"
       [] th.in.pc = "tw" -> "tw"
-      [] th.opc = "pt.msctx" -> "pt"
+      [] th.opc \in PointLabels -> "pt"
       [] th.opc = "rd.read" /\ ~InCall(th) -> "tr"
       [] OTHER -> "blk"
 Obs == [app |-> [t \in AppThreads |-> AppObs(t)],
